@@ -1007,7 +1007,8 @@ func copyVersions(srcStore, dstStore dvid.Store, d1, d2 dvid.Data, uuids []dvid.
 					var lastKV *storage.KeyValue
 					for _, v := range versionsToStore {
 						curKV := kvsToStore[v]
-						if lastKV == nil || (curKV != nil && bytes.Compare(lastKV.V, curKV.V) != 0) {
+						// a deletion marker and an empty value carry the same (no) bytes but are not repeats of one another
+						if lastKV == nil || (curKV != nil && (bytes.Compare(lastKV.V, curKV.V) != 0 || lastKV.K.IsTombstone() != curKV.K.IsTombstone())) {
 							if curKV != nil {
 								keybuf := make(storage.Key, len(curKV.K))
 								copy(keybuf, curKV.K)
